@@ -404,7 +404,19 @@ def c17_function_reads_model_solution(w, v):
     side, step = w.get('side'), w.get('step')
     blanks = set()
     for s_, op, arg in case['history'][:step]:
-        if s_ != side or op != 'model_calc_x':
+        if s_ != side:
+            continue
+        if op == 'call':
+            # an earlier call of the function itself: the values it received for
+            # unpopulated members of a range input were written into that same
+            # solution object by the inverse of the range
+            for kind, key in case.get('fn_inputs') or ():
+                if kind == 'range':
+                    b, s, c1, r1, c2, r2 = key
+                    blanks |= {(b, s, c, r) for c in range(c1, c2 + 1)
+                               for r in range(r1, r2 + 1) if not ev.populated((b, s, c, r))}
+            continue
+        if op != 'model_calc_x':
             continue
         for kind, key, _val in arg:
             if kind in ('cell', 'formula-cell'):
